@@ -177,7 +177,10 @@ func (m *promptManager) handleGetPrompt(ctx context.Context, req *JSONRPCRequest
 	if !ok {
 		return errResp, nil
 	}
+	// Get prompt with proper locking.
+	m.mu.RLock()
 	registeredPrompt, exists := m.prompts[name]
+	m.mu.RUnlock()
 	if !exists {
 		return newJSONRPCErrorResponse(
 			req.ID,
